@@ -234,6 +234,13 @@ fn target_rules(out: &mut Out, quick: bool) {
                     for gap in [0u32, 1, 600, 1199, 1200, 1201, 7200] {
                         check_target(&store, net, pt + gap, out, json!({"family": "tail", "net": net.to_string(), "candidate_height": cand_h, "tail_pattern": pat, "gap": gap}));
                     }
+                    // a candidate dated before its parent (legal as long as it is later than
+                    // the median): the 20-minute exception looks at "later than", not at the
+                    // distance
+                    for back in [1u32, 600, 1199, 1200, 1201, 7200] {
+                        check_target(&store, net, pt - back, out, json!({"family": "tail", "net": net.to_string(), "candidate_height": cand_h, "tail_pattern": pat, "gap": -(back as i64)}));
+                        out.count("targets_for_candidates_dated_before_their_parent");
+                    }
                     out.count(&format!("walk_backs_of_length_{}", walk));
                 }
                 // a run of limit-bits headers reaching back to the period boundary
@@ -608,7 +615,7 @@ pub fn run(tier: &str) -> i32 {
     store_adaptor(&mut rep, quick);
     rep.evaluations = rep.out.states;
     let _ = factory::REGTEST_BITS;
-    rep.rule = "network in {mainnet, testnet4, regtest} x candidate position (h mod 2016 in {0,1,2,2015}) in periods 1 and 2 x {limit, real}^4 bits of the last four headers x gap to parent in {0,1,600,1199,1200,1201,7200} ; retarget boundary x 13 period timespans (negative, 0, around T/4, T, 4T) x first-bits variants (BIP94) x last-bits variants; walk-backs to a period boundary and to genesis; timestamp rule x chain lengths 1..14 x 6 timestamp patterns x 8 candidate times; regtest end-to-end (mined / unmined, known / unknown parent, 5 declared targets, 6 times, 6 chain lengths); and, for the height the rules are evaluated at: in every state of TREE histories with announced-header chains, for every possible parent (tree block or retained announced header) the chain view handed to the validator (height, header at every height across stable store / unstable chain / announced headers, lookup by hash, initial hash) against the reference chain; distinct = distinct required targets / states".into();
+    rep.rule = "network in {mainnet, testnet4, regtest} x candidate position (h mod 2016 in {0,1,2,2015}) in periods 1 and 2 x {limit, real}^4 bits of the last four headers x gap to parent in {0,1,600,1199,1200,1201,7200} and {-1,-600,-1199,-1200,-1201,-7200} (candidate dated before its parent); retarget boundary x 13 period timespans (negative, 0, around T/4, T, 4T) x first-bits variants (BIP94) x last-bits variants; walk-backs to a period boundary and to genesis; timestamp rule x chain lengths 1..14 x 6 timestamp patterns x 8 candidate times; regtest end-to-end (mined / unmined, known / unknown parent, 5 declared targets, 6 times, 6 chain lengths); and, for the height the rules are evaluated at: in every state of TREE histories with announced-header chains, for every possible parent (tree block or retained announced header) the chain view handed to the validator (height, header at every height across stable store / unstable chain / announced headers, lookup by hash, initial hash) against the reference chain; distinct = distinct required targets / states".into();
     rep.bounds = json!({"tier": tier});
     rep.assume("the accept side of the composed predicate on mainnet/testnet needs real proof of work and is not reached; it shares the composition code with regtest and its network-specific parts are compared through the rule wrappers");
     rep.assume("reference: an independent re-implementation of Core's GetNextWorkRequired / CalculateNextWorkRequired (BIP94 base on testnet4) and median-time-past, with its own compact-target arithmetic on big integers");
